@@ -8,6 +8,8 @@ fuel of a loop runs out.
 import Ymq.Lemmas.GcdLoop
 import Ymq.Lemmas.GcdReduceInv
 import Ymq.Lemmas.GcdTerm
+import Ymq.Lemmas.GcdOne
+import Ymq.Lemmas.GcdInv
 
 namespace Ymq.C09
 open Ymq.Gcd
@@ -92,80 +94,40 @@ theorem big_gcd_spec (N : Nat) (hN : 0 < N) (n p d : Nat) (h : bigGcd N n p = so
 
 example : bigGcd 8 (2 ^ 300 * 3) (2 ^ 200 * 9) = some (2 ^ 200 * 3) := by decide +kernel
 
-/-- `inv_mod::<N>(n, p)`, modulus `p >= 2`: `Ok(x)` is the reduced inverse, `Err(d)` is the
-non-trivial gcd (for `n = 0` the gcd is `p`).
-Partial: the modulus `p = 1` is excluded (the reduced inverse must then be `0`, which needs the
-sign of the cofactor produced by the loop; see `inv_mod_spec`). -/
-theorem inv_mod_spec_partial (N : Nat) (hN : 0 < N) (n p : Nat) (hp : 2 ≤ p) (r : InvRes)
+/-- `inv_mod::<N>(n, p)` for every `n` and every modulus `p` (`p = 0` is refused by the assertion:
+the model returns `none`): whenever it returns,
+* `Ok(x)`: `x < p` and `n * x ≡ 1 (mod p)` (for `p = 1` this reads `x = 0`);
+* `Err(d)`: `d = gcd(n, p)` and `d ≠ 1` (for `n = 0`, `p ≠ 1` the gcd is `p`).
+On the pinned tree `inv_mod(0, 1)` returned `Err(1)`, violating the second clause (and the doc
+comment "Err(gcd) if gcd > 1"); repaired by the `fix:` commit 370d025 in /repo, which the model
+follows. The case `p = 1`, `n > 0` needs the sign of the cofactor: `gcdLoop_one_nonneg`. -/
+theorem inv_mod_spec (N : Nat) (hN : 0 < N) (n p : Nat) (r : InvRes)
     (h : invMod N n p = some r) :
     match r with
-    | .ok x => x < p ∧ n * x % p = 1
+    | .ok x => x < p ∧ n * x % p = 1 % p
     | .err d => d = Nat.gcd n p ∧ d ≠ 1 := by
-  unfold invMod at h
-  split at h
-  · simp at h
-  · split at h
-    · rename_i hn
-      have hp1 : p ≠ 1 := by omega
-      simp [hp1] at h; subst h; subst hn
-      simp; omega
-    · split at h
-      · simp at h
-      · rename_i d u v hg
-        obtain ⟨hd, hb⟩ := gcd_internal_spec N hN true _ n p d u v hg
-        have hb := hb rfl
+  by_cases hp2 : 2 ≤ p
+  · exact invMod_spec_ge2 N hN n p hp2 r h
+  · have hp : p = 0 ∨ p = 1 := by omega
+    rcases hp with rfl | rfl
+    · simp [invMod] at h
+    · unfold invMod at h
+      rw [if_neg (by omega)] at h
+      split at h
+      · simp at h; subst h; simp
+      · rename_i hn0
         split at h
-        · rename_i hd1
+        · simp at h
+        · rename_i d u v hg
+          have hd := (gcdLoop_spec hN _ _ d u v hg (GInv_init true n 1)).1
+          have hu := gcdLoop_one_nonneg hN (Nat.pos_of_ne_zero hn0) _ d u v hg
+          rw [Nat.gcd_one_right] at hd
+          rw [if_neg (by omega), if_neg (by omega)] at h
           simp at h; subst h
-          exact ⟨hd, hd1⟩
-        · rename_i hd1
-          have hd1 : d = 1 := by omega
-          rw [hd1] at hb
-          have hpz : (p : Int) ≠ 0 := by omega
-          -- n * u ≡ 1 (mod p)
-          have hmod : (n : Int) * u % p = 1 % p := by
-            have : (n : Int) * u = 1 + p * (-v) := by push_cast at hb; linarith
-            rw [this, Int.add_mul_emod_self_left]
-          have h1p : (1 : Int) % p = 1 := Int.emod_eq_of_lt (by omega) (by omega)
-          split at h
-          · rename_i hneg
-            split at h
-            · simp at h
-            · rename_i ua hua
-              simp at h; subst h
-              have hua' := (chkB_some hua).1
-              subst hua'
-              -- p does not divide u
-              have hnd : (-u).toNat % p ≠ 0 := by
-                intro h0
-                have hdvd : (p : Int) ∣ u := by
-                  have : p ∣ (-u).toNat := Nat.dvd_of_mod_eq_zero h0
-                  have h2 : (p : Int) ∣ ((-u).toNat : Int) := Int.natCast_dvd_natCast.2 this
-                  have h3 : ((-u).toNat : Int) = -u := by omega
-                  rw [h3] at h2; exact (Int.dvd_neg.1 h2)
-                have : (n : Int) * u % p = 0 := Int.emod_eq_zero_of_dvd (Dvd.dvd.mul_left hdvd _)
-                rw [this] at hmod; omega
-              have hlt : (-u).toNat % p < p := Nat.mod_lt _ (by omega)
-              refine ⟨by omega, ?_⟩
-              have hx : ((p - (-u).toNat % p : Nat) : Int) = p - (-u) % p := by
-                have h3 : ((-u).toNat : Int) = -u := by omega
-                rw [Nat.cast_sub (Nat.le_of_lt hlt)]; push_cast; rw [h3]
-              have key : ((n * (p - (-u).toNat % p) : Nat) : Int) % p = 1 := by
-                push_cast; rw [hx]
-                have e : (n : Int) * (p - -u % p) = n * u + p * (n * (1 + (-u) / p)) := by
-                  have := Int.emod_add_mul_ediv (-u) p
-                  linear_combination (-(n : Int)) * this
-                rw [e, Int.add_mul_emod_self_left, hmod, h1p]
-              exact_mod_cast key
-          · rename_i hneg
-            simp at h; subst h
-            have hu : (u.toNat : Int) = u := by omega
-            refine ⟨Nat.mod_lt _ (by omega), ?_⟩
-            have key : ((n * (u.toNat % p) : Nat) : Int) % p = 1 := by
-              push_cast; rw [hu, Int.mul_emod, Int.emod_emod_of_dvd _ (dvd_refl _), ← Int.mul_emod, hmod, h1p]
-            exact_mod_cast key
+          simp [Nat.mod_one]
 
-example : invMod 8 3 7 = some (.ok 5) ∧ invMod 8 6 9 = some (.err 3) ∧ invMod 8 0 9 = some (.err 9) := by
+example : invMod 8 3 7 = some (.ok 5) ∧ invMod 8 6 9 = some (.err 3) ∧ invMod 8 0 9 = some (.err 9) ∧
+    invMod 8 0 1 = some (.ok 0) ∧ invMod 8 5 1 = some (.ok 0) := by
   decide +kernel
 
 end Ymq.C09
